@@ -21,6 +21,8 @@ var (
 	Failures []string
 	Reached  []string
 	Missing  []string
+	// Trace is the ordered list of assertion and reachability labels met (conformance runs)
+	Trace []string
 )
 
 func load() {
@@ -47,7 +49,7 @@ func load() {
 // Reset clears replay counters (between test cases in one process).
 func Reset() {
 	counters = map[string]int{}
-	Failures, Reached, Missing = nil, nil, nil
+	Failures, Reached, Missing, Trace = nil, nil, nil, nil
 	loaded = false
 }
 
@@ -140,13 +142,17 @@ func Assume(c bool) {
 }
 
 func Assert(c bool, label string) {
+	Trace = append(Trace, "A:"+label)
 	if !c {
 		Failures = append(Failures, label)
 		fmt.Println("SYM-ASSERT-FAILED", label)
 	}
 }
 
-func Reach(label string) { Reached = append(Reached, label) }
+func Reach(label string) {
+	Reached = append(Reached, label)
+	Trace = append(Trace, "R:"+label)
+}
 
 func Concretize(x int64) int64    { return x }
 func ConcretizeU(x uint64) uint64 { return x }
